@@ -12,6 +12,9 @@ Driver for C17: one operation per line on stdin, one result per line on stdout.
   untar dir=<hex> pre=<ents> ents=<ents>      dock.writeTarToDir, same conventions
   rt dir=<hex> tree=<ents>          ziputil.ZipDir of a tree, then UnzipDir(dir, _, clear=true);
                                     answer: whether the tree is in walk order (`treeOK`), entry names, status, extracted tree relative to dir
+  rthist dir=<hex> clear=<0|1> tree1=<ents> tree2=<ents> [dt=<ms>]
+                                    ZipDir+UnzipDir(clear) of tree1, then ZipDir of tree2 unzipped INTO that extraction
+  firstfile dir=<hex> dest=<hex> pre=<ents> ents=<ents>   dock.writeFirstFileAs(tar, dest)
   rtfile dir=<hex> base=<hex> perm=<n> content=<hex>     ziputil.ZipFile, then UnzipDir
   tarzip dir=<hex> names=<hex,...>  tarutil.TarZipFile: the tar header names
 
@@ -111,6 +114,29 @@ def step (_ : Unit) (line : String) : Unit × String :=
           let (fs', st) := untarDir C17Facts.untarGuard dir fs (ents.map toT)
           s!"{showStatus st} tree={showTree (subtree fs' wRoot)}"
       | _, _, _ => "bad-op"
+    | "firstfile" :: rest =>
+      match kvHex rest "dir", kvHex rest "dest", (kv rest "pre").bind parseEnts, (kv rest "ents").bind parseEnts with
+      | some dir, some dest, some pre, some ents =>
+        match initFS dir pre with
+        | none => "bad-pre"
+        | some fs =>
+          match firstFileAs fs dest (ents.map toT) with
+          | .ok fs' => s!"ok tree={showTree (subtree fs' wRoot)}"
+          | .osErr => s!"oserr tree={showTree (subtree fs wRoot)}"
+          | .notFound => s!"notfound tree={showTree (subtree fs wRoot)}"
+      | _, _, _, _ => "bad-op"
+    | "rthist" :: rest =>
+      match kvHex rest "dir", kvNat rest "clear", (kv rest "tree1").bind parseEnts, (kv rest "tree2").bind parseEnts with
+      | some dir, some clear, some t1, some t2 =>
+        match initFS dir [] with
+        | none => "bad-pre"
+        | some fs =>
+          let mk : List RawEnt → Tree := fun tree => tree.map fun e =>
+            ((clean e.name).segs, if e.kind = "d" then Node.dir e.perm else Node.file e.perm e.content)
+          let (fs1, st1) := unzipDir C17Facts.unzipGuard dir true fs (zipDir (mk t1))
+          let (fs2, st2) := unzipDir C17Facts.unzipGuard dir (clear != 0) fs1 (zipDir (mk t2))
+          s!"{showStatus st1} {showStatus st2} tree={showTree (subtree fs2 (clean dir).segs)}"
+      | _, _, _, _ => "bad-op"
     | "rt" :: rest =>
       match kvHex rest "dir", (kv rest "tree").bind parseEnts with
       | some dir, some tree =>
